@@ -6,11 +6,14 @@ import FlVerif.Op.Infer
 import FlVerif.Op.PyExtDiscrete
 import FlVerif.Op.Fld
 import FlVerif.Drv.Defuzz
+import FlVerif.Drv.Lang
+import FlVerif.Drv.Engine
 
 /-! Driver commands for models that came with the code ties (DESIGN.md 0.7) and had no differential stream of their
     own: `Op/Infer.lean` (C01: `Engine.infer_type`, `Variable.highest_membership`, `Variable.fuzzify`),
     `Op.Weighted.highestActivated` and `Aggregated.range` (C10), `Op.Fld.write` with recording stubs for the NumPy /
-    engine operations (C18). -/
+    engine operations (C18), `Op.loadRules` (C16 / C13: `RuleBlock.load_rules`), and the engine sessions of C13 with
+    `Op.Session.restartR` for a restart whose `reload_rules` raises. -/
 
 namespace Drv
 open SExp
@@ -144,6 +147,50 @@ def wBlock : WArr → SExp
   | .empty => list [atom "empty"]
   | _ => atom "?"
 
+/-! ## C13: sessions in which a restart can raise (`Op.Session.restartR`) -/
+
+open Op.Engine in
+/-- do the names of a rule resolve in the engine?  (`Rule.load`: every variable of the antecedent is a variable of the
+    engine that has a term, every term one of its terms, every hedge registered; every conclusion names an output
+    variable that has a term and one of its terms) -/
+def ruleLoadsIn (e : EngineD Rat) (r : RuleD Rat) : Bool :=
+  let hedgesOk (hs : List String) : Bool := hs.all (fun h => h == "any" || (Gen.hedgeByName Fn.rat h).isSome)
+  let rec ante : Ante → Bool
+    | .prop v hs t =>
+      hedgesOk hs &&
+      (match e.outputs.find? (fun o => o.name == v), e.inputs.find? (fun i => i.name == v) with
+       | some ov, _ => !ov.terms.isEmpty && t.all (fun t => ov.terms.any (fun tt => tt.name == t))
+       | none, some iv => !iv.terms.isEmpty && t.all (fun t => iv.terms.any (fun tt => tt.name == t))
+       | none, none => false)
+    | .and l r => ante l && ante r
+    | .or l r => ante l && ante r
+  ante r.ante && !r.concls.isEmpty && r.concls.all (fun c =>
+    hedgesOk c.hedges &&
+    (match e.outputs.find? (fun o => o.name == c.var) with
+     | some ov => !ov.terms.isEmpty && ov.terms.any (fun tt => tt.name == c.term)
+     | none => false))
+
+open Op.Engine in
+/-- what `rule_block.reload_rules(engine)` does to a block: every rule ends loaded exactly when its own load succeeds
+    (`C16.load_rules_loaded_iff`), and the call raises exactly when some rule fails (`C16.load_rules_raises_iff`) -/
+def reloadIn (e : EngineD Rat) (b : Block Rat) : Except (Block Rat) (Block Rat) :=
+  let b' := { b with rules := b.rules.map (fun r => { r with loaded := ruleLoadsIn e r }) }
+  if b'.rules.all (·.loaded) then .ok b' else .error b'
+
+/-- a command of `Op.Session`, or `(restart-r)`: `Engine.restart()` as `Op.Session.restartR` with `reloadIn` -/
+inductive SessCmdR where
+  | plain (c : Op.Session.Cmd Rat)
+  | restartR
+
+def sessCmdR : SExp → Option SessCmdR
+  | list [atom "restart-r"] => some .restartR
+  | e => (sessionCmd e).map .plain
+
+def obsSx (o : Op.Session.Obs Rat) : SExp :=
+  match o with
+  | none => atom "error"
+  | some vs => list (vs.map (fun v => match v with | some x => ofX x | none => atom "disabled"))
+
 def tieModels : List SExp → Option SExp
   | [atom "infer-type", list outs, list blocks] => do
       let e : Op.Infer.Engine := { outputs := (← outs.mapM tmDefuzz), blocks := (← blocks.mapM (fun b => do pure ⟨← b.asBool⟩)) }
@@ -184,6 +231,39 @@ def tieModels : List SExp → Option SExp
       | none => pure (atom "value-error")
       | some (e, out, header) =>
         pure (list [atom "ok", list e, (match out with | .stacked l => list (l.map wBlock) | _ => atom "?"), tmHex header])
+  -- C13: `(session-r engine (cmd …))`: as `session` (one observation per `process`), plus `(restart-r)`: a restart whose
+  -- `reload_rules` may raise - observation `(restart ok)` / `(restart raises)`; the session continues from the state
+  -- the model `restartR` gives (on a raise: inputs NaN, rules of the failing block as the reload left them, outputs kept)
+  | [atom "session-r", e, list cmds] => do
+      let e ← engineD e
+      let cmds ← cmds.mapM sessCmdR
+      let (_, outs) := cmds.foldl (fun (acc : Op.Session.Sess Rat × List SExp) c =>
+        match c with
+        | .plain c =>
+          let (s', o) := Op.Session.step Fn.rat acc.1 c
+          (match c with
+           | .process => (s', acc.2 ++ [obsSx o])
+           | _ => (s', acc.2))
+        | .restartR =>
+          (match Op.Session.restartR (reloadIn acc.1.engine) acc.1 with
+           | .ok s' => (s', acc.2 ++ [list [atom "restart", atom "ok"]])
+           | .error s' => (s', acc.2 ++ [list [atom "restart", atom "raises"]]))) (Op.Session.fresh e, [])
+      pure (list outs)
+  -- C16 / C13: `(load-rules (var …) (text …))`: `RuleBlock.load_rules(engine)` on rules parsed from the texts:
+  -- `(ok|raises (loaded …) ((index kind) …))`
+  | [atom "load-rules", vars, list texts] => do
+      let vs ← (← vars.asList).mapM asVarD
+      let texts ← texts.mapM lgAsText
+      let ps ← texts.mapM (fun t => match Op.ruleParse t with | .ok p => some p | .error _ => none)
+      let eng : Op.EngineInfo := ⟨vs.map (·.info), Gen.Tables.hedgeKeys⟩
+      let tbl := Gen.Tables.elements
+      let r := Op.loadRules tbl eng ps
+      -- the failures are (rule, class) in order: their positions are those of the rules whose own load fails
+      let idx := (ps.zipIdx.filterMap (fun p => ((Op.ruleLoad tbl eng p.1 .unloaded).2.map (fun k => (p.2, k)))))
+      if idx.map (·.2) != r.2.map (·.2) then none
+      else pure (list [atom (if Op.loadRulesRaises tbl eng ps then "raises" else "ok"),
+                       list (r.1.map (fun st => ofBool st.isLoaded)),
+                       list (idx.map (fun p => list [ofNat p.1, atom p.2.str]))])
   -- C10: `Aggregated.range()` = `maximum - minimum` (the model of `C10.code_aggregatedRange`)
   | [atom "wrange", lo, hi] => do pure (ofX (X.sub (← hi.asX) (← lo.asX)))
   | _ => none
